@@ -6,7 +6,7 @@ import ast
 from .. import AnalysisError
 from ..cfg import describe_path, no_exc
 from ..program import FuncInfo, ancestors, enclosing_stmt, norm, walk_local
-from . import delform, fa
+from . import c09, delform, fa
 from .common import check_none_defaults
 
 EXPLANATION = (
@@ -161,6 +161,12 @@ def run(ctx) -> None:
     ctx.rule("C06.formulation", "oracle evaluation: one row per combination, values of the model with exactly the implied reactions at zero", floor=6)
     try:
         delform.check_deletions(ctx, "C06.formulation")
+    except AnalysisError as exc:
+        ctx.defer(str(exc))
+    # the linear MOMA problem itself (shared with C09): the reported growth is only meaningful if it is posed as documented
+    ctx.rule("C09.moma", "formulation: linear MOMA poses the documented problem (shared with C09)", floor=6)
+    try:
+        c09.check_moma(ctx)
     except AnalysisError as exc:
         ctx.defer(str(exc))
     check_tasks(ctx)
